@@ -39,7 +39,9 @@ META = {
     "allowed_axioms": [],
     "rule": "every rule name x string/object form x a catalogue of property sets (each property at default and non-default "
             "values, pairs) x filter shapes (none / apply / skip / both; string, one-element list, list, empty list) x key "
-            "orders; configurations: rules/process alias, default rules, generator forms, bundle settings, top-level "
+            "orders; the full 5 x 5 matrix apply x skip in {absent, string, 1, 2, 3 distinct patterns} on four rules (with and "
+            "without properties) and at the top level, run on a tree where removing any single pattern of any cell changes the "
+            "selection (checked on every run); configurations: rules/process alias, default rules, generator forms, bundle settings, top-level "
             "filters; grid: every rule x every candidate key (all string literals found in the rules' configure functions "
             "+ junk) x sample values of every JSON kind; corruptions: every key misspelt, every value replaced by every "
             "other kind, every key of every object (rule, configuration, generator, bundle, bundle require mode) written twice "
@@ -305,6 +307,47 @@ KIND_SAMPLES_QUICK = [None, True, 7, -2, 1.5, "zz", [], ["zz"], [1], obj(zz=1)]
 JUNK_KEYS = ["prop", "rules", "name", "Rule", "apply_to_file", "skip_file", "value ", "texts", ""]
 
 
+# the full matrix of filter shapes: apply x skip, each absent / one string / one-element list / two / three patterns, with
+# DISTINCT patterns on a tree (matrix_tree) where dropping any single pattern of any cell changes the selection:
+# `one/**` selects four files, each further apply pattern adds one file, each skip pattern removes one file of `one/`
+MATRIX_APPLY = [None, "src/f/one/**", ["src/f/one/**"], ["src/f/one/**", "**/two/*.luau"],
+                ["src/f/one/**", "**/two/*.luau", "src/f/three/y.lua"]]
+MATRIX_SKIP = [None, "**/one/a.luau", ["**/one/a.luau"], ["**/one/a.luau", "src/f/one/b.*"],
+               ["**/one/a.luau", "src/f/one/b.*", "**/c.luau"]]
+MATRIX_FILES = ["src/f/one/a.luau", "src/f/one/b.luau", "src/f/one/c.luau", "src/f/one/d.luau", "src/f/two/x.luau",
+                "src/f/three/y.lua", "src/f/other/z.luau"]
+
+
+def matrix_tree():
+    return {p: "-- comment of %s\nassert(_G.FLAG)\nreturn _G.FLAG\n" % p for p in MATRIX_FILES}
+
+
+def matrix_filter(ai, si):
+    pairs = []
+    if MATRIX_APPLY[ai] is not None:
+        pairs.append(("apply_to_files", MATRIX_APPLY[ai]))
+    if MATRIX_SKIP[si] is not None:
+        pairs.append(("skip_files", MATRIX_SKIP[si]))
+    return O(pairs if (ai + si) % 2 == 0 else pairs[::-1])
+
+
+def matrix_config(where, ai, si, drop=None):
+    """where: a (rule name, properties) pair, or "top"; drop = (key, index) removes one pattern of the cell"""
+    flt = matrix_filter(ai, si)
+    if drop is not None:
+        key, idx = drop
+        flt = O((k, ([p for j, p in enumerate(x) if j != idx] if isinstance(x, list) else None) if k == key else x) for k, x in flt)
+        flt = O((k, x) for k, x in flt if x is not None)
+    if where == "top":
+        return O([("rules", [obj(rule="append_text_comment", text="m")]), ("generator", "retain_lines")] + list(flt))
+    name, props = where
+    return obj(rules=[rule_object(name, props, flt, (ai + 2 * si) % 3)], generator="retain_lines")
+
+
+MATRIX_WHERE = [("remove_comments", obj()), ("append_text_comment", obj(text="m")),
+                ("inject_global_value", obj(identifier="FLAG", value=7)), ("remove_assertions", obj()), "top"]
+
+
 def legit(path, v):
     """does the documentation allow value v at this place?  path = tuple of keys from the root
     ('rules', <rule name>, <property>) / ('generator', 'column_span') / ..."""
@@ -471,6 +514,14 @@ def build_cases(ctx, names, tmpfile):
             for flt in (FILTER_SHAPES[0], FILTER_SHAPES[3], FILTER_SHAPES[5], FILTER_SHAPES[9]):
                 cases.append(Case("config", obj(rules=[rule_object(name, props, flt, 0)], generator="retain_lines"),
                                   "accept", level="config", rule=name, props=[k for k, _ in props]))
+
+    # ---- the 5 x 5 matrix of filter shapes on rules (with and without properties) and at the top level
+    for where in MATRIX_WHERE:
+        for ai in range(5):
+            for si in range(5):
+                cases.append(Case("config", matrix_config(where, ai, si), "accept", level="config",
+                                  matrix=("top" if where == "top" else where[0], ai, si),
+                                  rule=None if where == "top" else where[0]))
 
     # ---- corruptions of valid configurations
     def corrupt(base_cfg, label):
@@ -1180,7 +1231,10 @@ def run(ctx):
     def add_job(text, who):
         jobs.append({"id": len(jobs), "config": text, "input": "src", "output": "out"})
         job_index.append(who)
+    matrix_cases = [c for c in cfg_cases if c.tags.get("matrix")]
     for c in cfg_cases:
+        if c.tags.get("matrix"):
+            continue
         add_job(c.text, (c, "orig"))
         add_job(c.res["ser"], (c, "back"))
     for c in rule_level:
@@ -1188,6 +1242,26 @@ def run(ctx):
         add_job(wrap(c.text), (c, "orig"))
         add_job(wrap(c.res["ser"]), (c, "back"))
     n_main = len(jobs)
+    # the filter-shape matrix runs on its own tree, where every pattern of every cell changes the selection
+    jobs.append({"tree": matrix_tree()})
+    for c in matrix_cases:
+        add_job(c.text, (c, "orig"))
+        add_job(c.res["ser"], (c, "back"))
+    drops = []          # (where, ai, si, key, index): the cell with one pattern removed must behave differently
+    for where in (MATRIX_WHERE[1], "top"):
+        for ai in range(5):
+            for si in range(5):
+                for key, shape in (("apply_to_files", MATRIX_APPLY[ai]), ("skip_files", MATRIX_SKIP[si])):
+                    for idx in range(len(shape) if isinstance(shape, list) else (1 if shape else 0)):
+                        base = matrix_config(where, ai, si)
+                        if not isinstance(shape, list):
+                            dropped = O((k, x) for k, x in (base if where == "top" else dict(base)["rules"][0]) if k != key)
+                            dropped = dropped if where == "top" else obj(rules=[dropped], generator="retain_lines")
+                        else:
+                            dropped = matrix_config(where, ai, si, drop=(key, idx))
+                        drops.append((render(base), render(dropped), key, idx))
+                        add_job(render(base), (("drop", len(drops) - 1), "base"))
+                        add_job(render(dropped), (("drop", len(drops) - 1), "dropped"))
     # configurations with a bundle block additionally bundle a project where every require-mode field matters
     bundle_cases = [c for c in cfg_cases if isinstance(c.value, O) and isinstance(dict(c.value).get("bundle"), O)]
     jobs.append({"tree": bundle_tree()})
@@ -1198,6 +1272,9 @@ def run(ctx):
     out = [a for a in talk(jobs)[1:] if "tree" not in a]
     beh = {}
     for (c, which), a in zip(job_index, out):
+        if isinstance(c, tuple):
+            beh[(c, which)] = (a["ok"], tuple(sorted(a["files"].items())))
+            continue
         beh[(id(c), which)] = (a["ok"], tuple(e.split(" at line")[0] for e in a["errors"]), tuple(sorted(a["files"].items())))
         if a.get("panic"):
             panics.append(c)
@@ -1210,6 +1287,10 @@ def run(ctx):
                              "the round-tripped configuration bundles the probe project differently",
                              {"kind": c.kind, "text": c.text, "serialized": c.res["ser"], "errors": [b0[1], b1[1]],
                               "outputs": [dict(b0[2]).get("out/main.luau"), dict(b1[2]).get("out/main.luau")]}))
+    for k, (base_text, dropped_text, key, idx) in enumerate(drops):
+        if beh[(("drop", k), "base")] == beh[(("drop", k), "dropped")] or not beh[(("drop", k), "base")][0]:
+            raise C.CheckBroken("the matrix tree does not distinguish pattern %d of %s in %s (removing it changes nothing)"
+                                % (idx, key, base_text))
     by_ser = {}
     compared = 0
     for c in cfg_cases + rule_level:
@@ -1221,7 +1302,8 @@ def run(ctx):
                              "the round-tripped configuration transforms files differently",
                              {"kind": c.kind, "text": c.text, "serialized": c.res["ser"], "files_differing": diff,
                               "errors": [b0[1], b1[1]]}))
-        key = (c.kind, render(canon_config(loads(c.res["ser"]), written=True)) if c.kind == "config" else render(canon_rule(loads(c.res["ser"]))))
+        key = (c.kind, bool(c.tags.get("matrix")),
+               render(canon_config(loads(c.res["ser"]), written=True)) if c.kind == "config" else render(canon_rule(loads(c.res["ser"]))))
         by_ser.setdefault(key, []).append((c, b0))
     for key, group in by_ser.items():
         c0, b0 = group[0]
@@ -1301,6 +1383,11 @@ def run(ctx):
                meaning_compared, meaning_compared, [], findings=sum(1 for k, _, _ in findings if k.startswith("roundtrip:meaning")))
     ctx.stream("bundle block: probe project bundled under the configuration vs under its round-tripped text (Rust only)",
                2 * len(bundle_cases), len(bundle_outputs), [], findings=sum(1 for k, _, _ in findings if k == "roundtrip:behaviour:bundle"))
+    ctx.stream("filter shapes: apply x skip in {absent, string, 1, 2, 3 patterns}^2 with distinct patterns, on 4 rules and at the top "
+               "level: configuration vs round-tripped text on a tree where every pattern of every cell matters (Rust only)",
+               2 * len(matrix_cases) + 2 * len(drops), len(matrix_cases), [],
+               findings=sum(1 for k, _, r in findings if "behaviour" in k and any(r.get("text") == c.text for c in matrix_cases)),
+               cells=len(matrix_cases), single_pattern_removals_checked=len(drops))
     ctx.stream("inject_global_value: injected Lua value read back == configured JSON value (Rust only)",
                len(inj_cases), len(inj_cases), [], findings=sum(1 for k, _, _ in findings if k.startswith("strict:inject")))
 
